@@ -399,6 +399,79 @@ def _check_batched(pair, mode):
     return []
 
 
+def check_history(pair):
+    """one model object: evaluate at the first point, move every parameter to the second point through
+    the public parameter interface (a new tensor; an in-place edit followed by the notification), evaluate
+    again: must be P(t) of the second point"""
+    import torch
+
+    c1, c2 = pair
+    m = c1["model"]
+    try:
+        m1, _, pi1, _ = build(c1)
+        m2, _, pi2, _ = build(c2)
+    except Exception as e:
+        return [("build", f"{type(e).__name__}: {e}")]
+
+    def spec_vals(c, pi):
+        if m == "HKY":
+            return ({"id": "m", "type": "HKY", "kappa": P("k", [c["kappa"]]), "frequencies": P("f", list(c["pi"]))},
+                    {"k": [c["kappa"]], "f": list(c["pi"])})
+        if m == "GTR":
+            return ({"id": "m", "type": "GTR", "rates": P("r", list(c["rates"])), "frequencies": P("f", list(c["pi"]))},
+                    {"r": list(c["rates"]), "f": list(c["pi"])})
+        if m in ("GeneralSymmetric", "GeneralNonSymmetric"):
+            codes = list("ACGTE")[: c["m"]]
+            return ({"id": "m", "type": "GeneralSymmetricSubstitutionModel" if m == "GeneralSymmetric"
+                     else "GeneralNonSymmetricSubstitutionModel",
+                     "data_type": {"id": "dt", "type": "GeneralDataType", "codes": codes},
+                     "mapping": c["mapping"], "rates": P("r", list(c["rates"])), "frequencies": P("f", list(c["pi"]))},
+                    {"r": list(c["rates"]), "f": list(c["pi"])})
+        if m == "MG94":
+            return ({"id": "m", "type": "MG94",
+                     "data_type": {"id": "dt", "type": "CodonDataType", "genetic_code": c["code"]},
+                     "alpha": P("a", [c["alpha"]]), "beta": P("b", [c["beta"]]), "kappa": P("k", [c["kappa"]]),
+                     "frequencies": P("f", pi.tolist())},
+                    {"a": [c["alpha"]], "b": [c["beta"]], "k": [c["kappa"]], "f": pi.tolist()})
+        return None, None
+
+    spec1, _ = spec_vals(c1, pi1)
+    _, vals2 = spec_vals(c2, pi2)
+    if spec1 is None:
+        return None
+    ts = [0.0, 0.01, 0.5, 2.0]
+    t1 = torch.tensor(ts).reshape(-1, 1)
+    n = len(pi1)
+    bad = []
+    try:
+        want = m2.p_t(t1).detach().numpy().reshape(len(ts), n, n)
+    except Exception:
+        return []
+    for how in ("assign", "inplace"):
+        try:
+            dic = tt.load(spec1)
+            mm = dic["m"]
+            with torch.no_grad():
+                mm.p_t(t1)
+            for k, v in vals2.items():
+                if how == "assign":
+                    dic[k].tensor = torch.tensor(v)
+                else:
+                    with torch.no_grad():
+                        dic[k].tensor.copy_(torch.tensor(v))
+                    dic[k].fire_parameter_changed()
+            with torch.no_grad():
+                got = mm.p_t(t1).detach().numpy().reshape(len(ts), n, n)
+        except Exception as e:
+            bad.append(("update_raises", f"{how}: {type(e).__name__}: {str(e)[:120]}"))
+            continue
+        e = np.abs(got - want).max()
+        if not e <= 1e-11:
+            bad.append(("update_history", f"after moving every parameter to the next lattice point ({how}): "
+                                          f"max |P - P_fresh| = {e:.3e}"))
+    return bad
+
+
 def nontrivial(case):
     m = case["model"]
     if m in ("JC69", "GeneralJC69"):
@@ -416,7 +489,7 @@ def _work(chunk):
         if kind == "single":
             bad = check_case(c)
         else:
-            bad = check_batched(c) or []
+            bad = (check_batched(c) or []) + (check_history(c) or [])
         res.append((kind, c, bad))
     return res
 
@@ -453,7 +526,7 @@ def run(run):
     samples = []
     for chunk in res:
         for kind, c, bad in chunk:
-            evals += len(TS) if kind == "single" else 4
+            evals += len(TS) if kind == "single" else 4 + 8
             if kind == "single" and nontrivial(c):
                 distinct.add(jdump(c))
             outcomes.add(bool(bad))
